@@ -1,6 +1,5 @@
 // Suites that need access to items private to this module (feature ipa-verif, test builds only).
 
-<<<<<<< HEAD
 // ------------------------------------------------------------------------------------------
 // C16 — Batcher (agent a4). Everything is inside `c16_batcher`; items elsewhere in this file
 // belong to other properties.
@@ -532,7 +531,10 @@ pub mod c16_batcher {
     #[test]
     fn verif_c16_batcher() {
         run_suite("c16_batcher", generate, exec);
-=======
+    }
+}
+
+
 // ---- C06: PrssIndex128 packing (the type is re-exported only inside crate::protocol) ----
 mod c06_suites {
     use crate::{
@@ -626,6 +628,5 @@ mod c06_suites {
             },
             c06_exec_pack,
         );
->>>>>>> agent-a6
     }
 }
